@@ -25,6 +25,7 @@ RULE = (
     "last snapshot and has the defined number of rows; an injected failure propagates and leaves each file equal to "
     "its snapshot before the failing write; every snapshot/truncation opens with the library's reader, reports "
     "k = floor((L-hdrlen)*8/(nbits*nchans)) samples and reads back exactly the first k samples of the full result. "
+    "The output path(s) are empty, hold a few stray bytes, or hold a file longer than the result before the writer starts. "
     "Non-trivial = operation with >=3 writes; distinct by canonical case JSON."
 )
 ASSUMPTIONS = [
@@ -60,7 +61,9 @@ def strat_case(draw, tier):
     eff = n - start if nsamps is None else nsamps
     nwrites = draw(st.integers(2, 12))
     gulp = max(1, -(-eff // nwrites))
-    return {"op": op, "layout": lay, "start": start, "nsamps": nsamps, "gulp": gulp, "p": draw(st.integers(0, 10**6))}
+    # pre: what is at the output path(s) before the writer starts - nothing / a few stray bytes / a file LONGER than the result
+    return {"op": op, "layout": lay, "start": start, "nsamps": nsamps, "gulp": gulp, "p": draw(st.integers(0, 10**6)),
+            "pre": draw(st.sampled_from([0, 0, 1, 2]))}
 
 
 def run_op(case, paths, outdir):
@@ -204,6 +207,23 @@ def check(case, ctx):
     # ---------- (i) observation
     out0 = os.path.join(d, "o0")
     os.mkdir(out0)
+    pre = case.get("pre", 0)
+    stale = {}  # basename -> bytes present at the output path before the writer starts
+    if pre:
+        try:
+            for (path, *_r) in run_op(case, paths, out0):  # discovery run: learn the output names and sizes
+                size = os.path.getsize(path)
+                stale[os.path.basename(path)] = b"\x07" * 5 if pre == 1 else bytes((i * 37 + 11) % 256 for i in range(size + 37))
+        except Exception as exc:  # noqa: BLE001
+            raise Violation(f"writer:raised:{type(exc).__name__}", f"{ctxt}: {exc!r}") from exc
+
+    def prepopulate(dirp):
+        for name, blob in stale.items():
+            with open(os.path.join(dirp, name), "wb") as fp:
+                fp.write(blob)
+
+    prepopulate(out0)
+    ctxt += f" preexisting_output={['none', 'short', 'longer'][pre]}"
     with Spy(out0) as spy:
         try:
             outs = run_op(case, paths, out0)
@@ -248,6 +268,7 @@ def check(case, ctx):
     for k in range(1, W + 1):
         outk = os.path.join(d, f"o{k}")
         os.mkdir(outk)
+        prepopulate(outk)
         with Spy(outk, fail_at=k) as spk:
             try:
                 run_op(case, paths, outk)
@@ -265,6 +286,8 @@ def check(case, ctx):
             with open(os.path.join(outk, name), "rb") as fp:
                 got = fp.read()
             wantb = done.get(name, b"")
+            if name not in done and got == stale.get(name, b""):
+                continue  # output not opened yet: whatever was there before is still there
             if got != wantb:
                 raise Violation("inject:file-not-prefix-snapshot", f"{ctxt}: after a failure at write {k}, {name} holds {len(got)} bytes, the snapshot before that write has {len(wantb)}")
         for name in done:
@@ -293,7 +316,7 @@ def check(case, ctx):
             if k and not np.array_equal(data[:k], full[:k]):
                 raise Violation("truncate:not-a-prefix", f"{ctxt}: {os.path.basename(path)} cut at {L} bytes: the {k} samples read differ from the first {k} of the full result")
             lastk = k
-    labels = [case["op"], f"writes{min(W, 13)}", f"{lay['nbits']}bit"] + ["crash_point"] * W + ["truncation"] * ntr
+    labels = [case["op"], f"writes{min(W, 13)}", f"{lay['nbits']}bit", f"preexisting_{pre}"] + ["crash_point"] * W + ["truncation"] * ntr
     return Info(W >= 3, tuple(labels))
 
 
